@@ -9,3 +9,5 @@ CHECK_DEADLOCK FALSE
 CONSTANT InFile = "texts.ndjson"
 CONSTANT NCatTexts = 4
 CONSTANT NCat = 50
+
+CONSTANT AliasWide = FALSE
